@@ -237,10 +237,13 @@ class Peer:
                 tr.send_error(exc, d2)
             else:
                 tr.peer_close(d2, exc)
-        elif k == "err":
+        elif k in ("err", "serr"):
             err = f.get("err", _errno.ECONNREFUSED)
             exc = ConnectionRefusedError(err, "refused") if err == _errno.ECONNREFUSED else OSError(err, "os error")
-            if tr.kind == "udp":
+            if tr.kind == "udp" and k == "serr":
+                # the error is raised by the send itself and reported before sendto() returns
+                tr.sync_error(exc)
+            elif tr.kind == "udp":
                 tr.send_error(exc, d)
             else:
                 tr.peer_close(d, exc)
